@@ -139,6 +139,19 @@ func (i *c11Iter) Value() []byte {
 	return i.es[i.pos].v
 }
 
+// ---- cut "nopad": newBatch without the 64 MiB padding record that pre-sizes the shared leveldb batch (the record is
+// reset away before the batch is used; under the executor the array alone would take gigabytes per worker) ----
+func newBatch() *batch {
+	if !rt.CutActive("nopad") {
+		return newBatch__real()
+	}
+	if innerBatch == nil {
+		innerBatch = new(leveldb.Batch)
+	}
+	innerBatch.Reset()
+	return &batch{b: innerBatch, puts: make(map[string]*batchPutValue), deletes: make(map[string]uint32)}
+}
+
 // c11Open: the store under the real wrapper. Symbolic: the model above (the *leveldb.DB is never touched).
 func c11Open() *LevelDB {
 	c11Committed, c11Pending, c11Writes = nil, nil, 0
@@ -278,9 +291,19 @@ func VerifC11BucketOps2() { c11BucketOps(2) }
 
 func c11BucketOps(maxOps int) {
 	l := c11Open()
-	n1 := string(rt.NondetBytes(1))
-	n2 := string(rt.NondetBytes(rt.NondetLen(1, 2)))
-	rt.Assume(isValidBucketName(n1) && isValidBucketName(n2) && n1 != n2)
+	// names from a small set: a letter or a digit (digits mimic the depth prefix of the key encoding); the second
+	// name is unrelated, or extends the first by a letter or a digit
+	n1 := "a"
+	if rt.NondetBool() {
+		n1 = "1"
+	}
+	n2 := "b"
+	switch rt.NondetLen(0, 2) {
+	case 1:
+		n2 = n1 + "b"
+	case 2:
+		n2 = n1 + "1"
+	}
 	names := [2]string{n1, n2}
 	var refs [2]*c11Ref
 	refs[0], refs[1] = &c11Ref{exists: true}, &c11Ref{exists: true}
@@ -293,7 +316,7 @@ func c11BucketOps(maxOps int) {
 	for i := 0; i < 2; i++ {
 		sb, err := top0.NewBucket(names[i])
 		rt.Assert(err == nil && sb != nil, "sub-bucket-created")
-		k, v := rt.NondetBytes(1), rt.NondetBytes(1)
+		k, v := []byte{'k'}, rt.NondetBytes(1) // the same key in both buckets
 		rt.Assert(sb.Put(k, v) == nil, "put-succeeds")
 		refs[i].put(k, v)
 	}
